@@ -24,7 +24,11 @@ Definition step_f (e : env) (fs : list fpoint) (s : inst) (l : list op) : inst *
 Definition run_f (e : env) (s : inst) (h : list (list op * list fpoint)) : inst :=
   fold_left (fun s st => fst (step_f e (snd st) s (fst st))) h s.
 
-(* the reload queue: one firing of services.reloadHAProxy whose Reload() succeeds or not *)
+(* the reload queue: one firing of services.reloadHAProxy whose Reload() succeeds or not.
+   lastFailed ([i_failed]) has one writer, the deferred assignment of HAProxyUpdate ([finish]):
+   Reload() / updateSuccessful() only touch failedSince and the metrics, so a queued reload that
+   succeeds between a failed update and its retry leaves the flag set (the correspondence
+   compares the flag after every step, hook haproxy.VerifLastFailed) *)
 Definition reload_once (ok : bool) (s : inst) : inst :=
   if i_pending s then
     if ok then {| i_cfg := i_cfg s; i_disk := i_disk s; i_failed := i_failed s; i_clean := i_clean s;
